@@ -34,6 +34,8 @@ type World struct {
 	boxDeclared map[string]bool
 	heapTypes   map[string]heapTypeInfo
 	heapElem    map[string]heapElemInfo
+	// heapMake re-creates a typed heap (with the sorts of the receiving world) in another world
+	heapMake map[string]func(*World) string
 }
 
 // heapElemInfo records the Go type stored in a heap and how many index levels precede it.
@@ -69,6 +71,7 @@ func NewWorld() *World {
 		boxDeclared: map[string]bool{},
 		heapTypes:   map[string]heapTypeInfo{},
 		heapElem:    map[string]heapElemInfo{},
+		heapMake:    map[string]func(*World) string{},
 	}
 }
 
@@ -333,6 +336,7 @@ func (w *World) FieldHeap(structT types.Type, idx int) string {
 		w.fieldOfHeap = map[string]fieldRef{}
 	}
 	w.fieldOfHeap[name] = fieldRef{structT, idx}
+	w.heapMake[name] = func(o *World) string { return o.FieldHeap(structT, idx) }
 	return w.heap(name, "(Array Int "+w.SortOf(f.Type())+")")
 }
 
@@ -341,6 +345,7 @@ func (w *World) CellHeap(t types.Type) string {
 	name := "Cell_" + shortTypeName(t)
 	w.heapTypes[name] = heapTypeInfo{"cell", t}
 	w.heapElem[name] = heapElemInfo{t: t, levels: 1}
+	w.heapMake[name] = func(o *World) string { return o.CellHeap(t) }
 	return w.heap(name, "(Array Int "+w.SortOf(t)+")")
 }
 
@@ -349,6 +354,7 @@ func (w *World) ElemHeap(elem types.Type) string {
 	name := "Elem_" + shortTypeName(elem)
 	w.heapTypes[name] = heapTypeInfo{"elem", elem}
 	w.heapElem[name] = heapElemInfo{t: elem, levels: 2, key: "Int"}
+	w.heapMake[name] = func(o *World) string { return o.ElemHeap(elem) }
 	return w.heap(name, "(Array Int (Array Int "+w.SortOf(elem)+"))")
 }
 
@@ -357,9 +363,11 @@ func (w *World) mapKey(m *types.Map) string {
 }
 
 func (w *World) MapDomHeap(m *types.Map) string {
+	w.heapMake["MapDom_"+w.mapKey(m)] = func(o *World) string { return o.MapDomHeap(m) }
 	return w.heap("MapDom_"+w.mapKey(m), "(Array Int (Array "+w.SortOf(m.Key())+" Bool))")
 }
 func (w *World) MapValHeap(m *types.Map) string {
+	w.heapMake["MapVal_"+w.mapKey(m)] = func(o *World) string { return o.MapValHeap(m) }
 	w.heapElem["MapVal_"+w.mapKey(m)] = heapElemInfo{t: m.Elem(), levels: 2, key: w.SortOf(m.Key())}
 	return w.heap("MapVal_"+w.mapKey(m), "(Array Int (Array "+w.SortOf(m.Key())+" "+w.SortOf(m.Elem())+"))")
 }
@@ -393,13 +401,22 @@ func (w *World) HeapWF(h, version, top string) []string {
 	if !ok {
 		return nil
 	}
+	// A reference stored in object a was allocated no later than `top` (the allocation mark when this version of the
+	// heap was created) or, for an object that did not exist then, no later than born(a): the mark at the end of the
+	// call that allocated it (see bumpAllocTop). So no version says anything about the contents of objects allocated
+	// later by a callee - its postcondition describes them - beyond that they refer to what existed by then.
+	bound := func(x string) string {
+		return "(or (<= " + x + " " + top + ") (<= " + x + " (born (fa_root a))))"
+	}
 	var acc func(x string) string
 	switch info.t.Underlying().(type) {
 	case *types.Map, *types.Chan, *types.Pointer:
 		// (addresses of inline struct fields are negative and satisfy this trivially)
-		acc = func(x string) string { return "(<= (fa_root " + x + ") " + top + ")" }
+		acc = func(x string) string { return bound("(fa_root " + x + ")") }
 	case *types.Slice:
-		acc = func(x string) string { return "(and (<= 0 (s-arr " + x + ")) (<= (fa_root (s-arr " + x + ")) " + top + "))" }
+		acc = func(x string) string {
+			return "(and (<= 0 (s-arr " + x + ")) " + bound("(fa_root (s-arr "+x+"))") + ")"
+		}
 	default:
 		if bits, ok := isUnsigned(info.t); ok {
 			acc = func(x string) string { return "(and (<= 0 " + x + ") (< " + x + " " + pow2(bits) + "))" }
@@ -452,6 +469,8 @@ func (w *World) Prelude() string {
 	b.WriteString("(declare-fun AllocBase () Int)\n(assert (> AllocBase 0))\n")
 	b.WriteString("(declare-fun fa_tag (Int) Int)\n(declare-fun fa_base (Int) Int)\n(declare-fun fa_root (Int) Int)\n")
 	b.WriteString("(define-fun oldaddr ((a Int)) Bool (and (not (= a 0)) (<= (fa_root a) AllocBase)))\n")
+	// born(x): the allocation mark by which object x and everything stored in it at its creation existed
+	b.WriteString("(declare-fun born (Int) Int)\n(assert (forall ((x Int)) (! (=> (<= x AllocBase) (<= (born x) AllocBase)) :pattern ((born x)))))\n")
 	b.WriteString("(declare-fun strlen (Int) Int)\n")
 	b.WriteString("(declare-fun strcat (Int Int) Int)\n")
 	// lengths of the string literals of this function (literal ids are negative, "" is 0)
